@@ -227,10 +227,18 @@ def is_numlike(v):
     return isinstance(v, (int, Fraction, float, bool)) or (isinstance(v, Z) and (v.is_num() or v.is_bool()))
 
 
+_STR_IDS = {}
+
+
 def zexpr(v):
-    """z3 expression of a scalar value (Int stays Int)."""
+    """z3 expression of a scalar value (Int stays Int).  A string used where a grammar symbol is expected denotes the symbol
+    with that name: strings are interned to distinct integers (symbols-as-Int, A3)."""
     if isinstance(v, Z):
         return v.e
+    if isinstance(v, str):
+        if v not in _STR_IDS:
+            _STR_IDS[v] = 10 ** 9 + len(_STR_IDS)
+        return z3.IntVal(_STR_IDS[v])
     if isinstance(v, bool):
         return z3.BoolVal(v)
     if isinstance(v, int):
